@@ -22,6 +22,7 @@ func init() {
 			"(D6) allow before block, first match wins: the checker list has the documented order, the check loop returns at the first matched result, the block engine is consulted only after the allow engine did not match (or is off), and an allow match never consults the block engine; (D7) protection gates every non-rewrite checker and rule lists additionally require filtering to be enabled; the per-request protection flag comes from the server's protection status; the rule engines are swapped, never removed, while serving. " +
 			"(D9) the client's name and tags — what $client / $ctag restricted rules match on — are handed to the filter for every found persistent client, not only for those with own settings. " +
 			"(D9, cont.) blocked services of a client with its own list: the global rules are discarded whenever the client brought its own list (also while its own schedule pauses blocking) and only then, the global list is applied before the client callback, and every application of a list of services is guarded by Contains(time.Now()) on the Schedule of that same BlockedServices value (the rules are shared with C04-D2 and C18-D3). " +
+			"(D9, cont. 2) every checker CheckHost hands the name to (blocked services, safe browsing, parental, safe search, rule lists) receives the lower-cased name, whatever the per-request switches are. " +
 			"Not decided: which names a rule set matches (urlfilter semantics), the exact synthetic RR content per mode and query type, values of per-client settings (C04), schedule instants (C18).",
 		RuleText:    "Stage list and checker list read from the slice literals in SSA; path guards; static reachability; enum/switch agreement from go/types constants.",
 		Assumptions: []string{"urlfilter.DNSEngine.MatchRequest semantics (external)", "dnsproxy calls the request handler once per admitted request"},
@@ -165,6 +166,7 @@ func runC01(c *Ctx) {
 	clientIdentityApplied(c, "C01-D9")
 	ownBlockedServices(c, "C01-D9")
 	blockedServicesSchedule(c, "C01-D9")
+	checkersGetLowerCasedName(c, "C01-D9")
 	c01EnginesAlwaysBuilt(c)
 	// D8: an allow-listed query's upstream answer is delivered unchanged
 	if skipped, fn := skipReasons(p); fn != nil {
@@ -194,7 +196,7 @@ func c01Filtered(c *Ctx) {
 	})
 	var starts []core.Point
 	for e := range gF {
-		starts = append(starts, core.Point{Block: e.From.Succs[e.Succ], Idx: 0})
+		starts = append(starts, core.AfterEdge(e))
 	}
 	isResStore := func(in ssa.Instruction) bool {
 		st, ok := in.(*ssa.Store)
@@ -602,7 +604,7 @@ func c01Checkers(c *Ctx) {
 		})
 		var starts []core.Point
 		for e := range gM {
-			starts = append(starts, core.Point{Block: e.From.Succs[e.Succ], Idx: 0})
+			starts = append(starts, core.AfterEdge(e))
 		}
 		found := true
 		if len(starts) > 0 {
@@ -669,7 +671,7 @@ func c01Checkers(c *Ctx) {
 	})
 	var starts []core.Point
 	for e := range gAllow {
-		starts = append(starts, core.Point{Block: e.From.Succs[e.Succ], Idx: 0})
+		starts = append(starts, core.AfterEdge(e))
 	}
 	found := true
 	if len(starts) > 0 {
